@@ -141,8 +141,8 @@ type network struct{ ans map[cid.ID]error }
 
 var localKey = []byte("verif-local-node-public-key-0123")
 
-func (n network) IsLocalNodeInNetmap() bool           { return true }
-func (n network) IsLocalNodePublicKey(k []byte) bool  { return string(k) == string(localKey) }
+func (n network) IsLocalNodeInNetmap() bool          { return true }
+func (n network) IsLocalNodePublicKey(k []byte) bool { return string(k) == string(localKey) }
 func (n network) GetNodesForObject(a oid.Address) ([][]netmap.NodeInfo, []uint, []iec.Rule, error) {
 	if err := n.ans[a.Container()]; err != nil {
 		return nil, nil, nil, err
